@@ -130,8 +130,20 @@ func (fr *Frame) bumpAlloc(st *State) {
 
 // lock ghost state is per thread: callees are assumed lock-balanced, so an unknown call does not
 // change which locks this thread holds.
+var immutableFields = map[string]bool{}
+
 func havocExempt(k string) bool {
-	return strings.HasPrefix(k, "v:") || k == "g:lockw" || k == "g:lockr"
+	if strings.HasPrefix(k, "v:") || k == "g:lockw" || k == "g:lockr" {
+		return true
+	}
+	if strings.HasPrefix(k, "f:") {
+		base := k[2:]
+		if i := strings.Index(base, "#"); i >= 0 {
+			base = base[:i]
+		}
+		return immutableFields[base]
+	}
+	return false
 }
 
 func (fr *Frame) havocAll(st *State) {
@@ -158,7 +170,10 @@ func (fr *Frame) havocAll(st *State) {
 func (fr *Frame) unknownCall(st *State, in ssa.Instruction, what string, sig *types.Signature) *Val {
 	c := fr.c
 	c.unknown[what] = true
+	pre := st.clone()
 	fr.havocAll(st)
+	fr.restoreLocked(pre, st)
+	fr.restoreCaptured(pre, st)
 	fr.bumpAlloc(st)
 	return resultVal(sig, fr.freshResults(st, sig, "unk"))
 }
@@ -226,6 +241,18 @@ func (fr *Frame) applyContract(st *State, in ssa.Instruction, ct *Contract, sig 
 	if fr.contract != nil {
 		for i, a := range fr.contract.Asserts[ord] {
 			env := fr.envAt(st)
+			if a.Kind == "assume" {
+				// environment assumption (e.g. about a value received from a channel): not proved,
+				// listed in the evidence
+				t, err := env.evalClause(a.E)
+				if err != nil {
+					c.errorf("%s: assume at %s: %v", fr.fn.Name(), ord, err)
+					continue
+				}
+				c.addFact(st, t)
+				c.trusted["ASSUMED in "+shortFn(fr.fn.RelString(nil))+" at "+ord+": "+a.Text] = true
+				continue
+			}
 			if a.Kind == "ghost" {
 				if err := c.ghostAssign(env, a); err != nil {
 					c.errorf("%s: ghost update at %s: %v", fr.fn.Name(), ord, err)
@@ -265,6 +292,7 @@ func (fr *Frame) applyContract(st *State, in ssa.Instruction, ct *Contract, sig 
 		for _, l := range locs {
 			if l.mapName == "*" {
 				fr.restoreLocked(pre, st)
+				fr.restoreCaptured(pre, st)
 			}
 		}
 	}
@@ -283,8 +311,8 @@ func (fr *Frame) applyContract(st *State, in ssa.Instruction, ct *Contract, sig 
 		t, err := env2.evalClause(e.E)
 		if err != nil {
 			// clauses over uninstantiated ghost parameters are simply not available here
-			if mentionsGhost(ct, e.E) {
-				continue
+			if mentionsGhost(ct, e.E) || strings.Contains(err.Error(), "at_lock()") || strings.Contains(err.Error(), "at_unlock()") {
+				continue // clause about the callee's own critical section: not available to callers
 			}
 			c.errorf("%s: ensures#%d of %s: %v", fr.fn.Name(), i+1, ct.Key, err)
 			continue
@@ -385,6 +413,18 @@ func (fr *Frame) envAt(st *State) *Env {
 					if pv := fr.vals[a]; pv != nil {
 						vars[fr.contract.Results[i].Name] = fr.c.load(st, pv)
 					}
+				}
+			}
+		}
+	}
+	if fr.depth == 0 && fr.fn.Parent() != nil {
+		for _, fv := range fr.fn.FreeVars {
+			if pv := fr.vals[fv]; pv != nil {
+				if _, isPtr := fv.Type().Underlying().(*types.Pointer); isPtr {
+					func() {
+						defer func() { recover() }()
+						vars[fv.Name()] = fr.c.load(st, pv)
+					}()
 				}
 			}
 		}
@@ -1340,4 +1380,28 @@ func (c *FnCtx) returnOrdinal(fn *ssa.Function, r *ssa.Return) int {
 		}
 	}
 	return 0
+}
+
+// restoreCaptured: the captured variables of the function literal being verified are cells that
+// only this literal and its siblings assign; a callee's havoc-all leaves them unchanged
+// (assumption, listed in the evidence).
+func (fr *Frame) restoreCaptured(pre, st *State) {
+	c := fr.c
+	top := c.top
+	if top == nil || top.fn.Parent() == nil {
+		return
+	}
+	for _, fv := range top.fn.FreeVars {
+		pv := top.vals[fv]
+		pt, ok := fv.Type().Underlying().(*types.Pointer)
+		if pv == nil || !ok {
+			continue
+		}
+		func() {
+			defer func() { recover() }()
+			old := Heap{st: pre}.loadDeref(pv.X, pt.Elem())
+			Heap{st: st, log: curLog}.storeDeref(pv.X, pt.Elem(), old)
+		}()
+	}
+	c.trusted["captured variables of the verified function literal are not assigned by its callees"] = true
 }
